@@ -368,6 +368,57 @@ def check_bqm(ctx, r, lines, expect, meta):
         meta.append(('BQM.to_serializable label order', src))
 
 
+SIZE_CLASS = 'sparse model at an index-width boundary (255..300 / 65535..65537 variables)'
+
+
+def check_bqm_sizes(ctx):
+    """Deterministic size-boundary class (r9f): sparse BQMs whose variable count straddles 2**8 (thorough tier: 2**16),
+    where some interaction reaching the highest index sorts BEFORE the last one, through every serialisation route.
+    Predicate only (implementation vs original, field by field): these sizes are not fed to the Lean driver."""
+    sizes = [255, 256, 257, 300] + ([65535, 65536, 65537] if ctx.scale(0, 1) else [])
+    shapes = [
+        ('far-first', '{(0, n - 1): 1.5, (5, 10): -2.0}'),
+        ('several far', '{(0, n - 1): 1.5, (3, n - 2): -0.75, (7, n - 3): 2.0, (20, 30): 0.125, (40, 41): -3.25}'),
+        ('far given high-low', '{(n - 1, 0): -1.5, (n - 2, 1): 0.75, (10, 5): 2.0}'),
+        ('far star', '{(1, n - 1): 0.5, (1, n - 2): -0.5, (1, 2): 2.0, (2, 3): -1.0, (2, n - 3): 0.25, (9, 8): 4.0}'),
+        ('chain at the top', '{(0, 1): 0.5, (n - 4, n - 3): -1.5, (n - 3, n - 2): 2.0, (n - 2, n - 1): 0.75}'),
+        ('chain at the bottom', '{(0, 1): 0.5, (1, 2): -1.5, (2, 3): 2.0, (3, 4): 0.75, (4, 5): -0.125}'),
+    ]
+    labelings = [('range labels', 'list(range(n))'), ('permuted labels', '[(i * 7 + 3) % n for i in range(n)]')]
+    for n in sizes:
+        large = n > 1000
+        for cls in (['BinaryQuadraticModel', 'Float32BQM'] if large else ['BinaryQuadraticModel', 'Float32BQM', 'DictBQM']):
+            for lname, lcode in labelings:
+                for vt, (sname, scode) in zip(['SPIN', 'BINARY'] * 3, shapes):
+                    src = (f'n = {n}\nlabels = {lcode}\n'
+                           f'bqm = dimod.{cls}({{v: (v % 5 - 2) / 4 for v in labels}}, {scode}, -2.25, {vt!r})')
+                    bqm = run_route(src, 'pass')['bqm']
+                    want = bqm_table(bqm)
+                    for name, code in BQM_ROUTES[:4]:        # the to_serializable routes: json text, encoder/decoder, bytes payload, bytes payload pickled
+                        if cls == 'DictBQM' and 'bytes' in name:
+                            continue       # object-dtype biases have no byte representation
+                        rp = PRE + src + '\n' + code + '\nassert bqm_table(new) == bqm_table(bqm) and new == bqm, sorted(set(bqm_table(new)[3].items()) ^ set(bqm_table(bqm)[3].items()), key=repr)'
+                        ok = True
+                        try:
+                            new = run_route(src, code)['new']
+                            got = bqm_table(new)
+                        except Exception as e:  # noqa
+                            ok = False; err = e
+                        ctx.tick('bqm size-boundary ' + name + ('' if ok else ':raises'))
+                        ctx.case(('bqm size', n, cls, lname, sname, name), nontrivial=True)
+                        if not ok:
+                            ctx.fail('property', 'BQM ' + name, SIZE_CLASS, f'{type(err).__name__}: {err} ({n} variables, {cls}, {lname}, interactions {scode})',
+                                     repro=rp, detail=dict(source=src, route=code))
+                        elif got != want or not (new == bqm):
+                            fields = [f for f, a, b in zip(('vartype', 'offset', 'linear biases', 'interactions'), got, want) if a != b] or ['`new == bqm`']
+                            miss = sorted(tuple(sorted(k)) for k in want[3] if got[3].get(k) != want[3][k])
+                            extra = sorted(tuple(sorted(k)) for k in got[3] if k not in want[3])
+                            ctx.fail('property', 'BQM ' + name, SIZE_CLASS,
+                                     f'round trip changed the model ({n} variables, {cls}, {vt}, {lname}, interactions {scode}): {", ".join(fields)} differ; '
+                                     f'interactions not reproduced {miss[:8]!r}, unexpected {extra[:8]!r}; {len(got[2])} variables came back',
+                                     repro=rp, detail=dict(source=src, route=code))
+
+
 def check_ss(ctx, r, lines, expect, meta):
     src, vt, dt, m, n = gen_ss_src(r)
     env = run_route(src, 'pass')
@@ -912,7 +963,7 @@ def check_history(ctx, r):
 
 def run(ctx):
     r = ctx.rng
-    ctx.rule = ('random BQMs (3 classes, 8 label pools incl. nested tuples, floats and unsortable mixes, isolated variables, zero biases) x 8 routes; '
+    ctx.rule = ('random BQMs (3 classes, 8 label pools incl. nested tuples, floats and unsortable mixes, isolated variables, zero biases) x 8 routes; deterministic sparse BQMs with 255/256/257/300 (thorough: 65535/65536/65537) variables, 6 interaction shapes whose far-reaching coupler sorts before the last one, range and permuted labels, 3 classes x the 4 to_serializable routes (predicate only); '
                 'random sample sets (5 vartypes, 7 sample dtypes, widths up to 65, 0 rows / 0 columns, int/float/bool/2-d data vectors, nested info '
                 'with arrays) x 8 routes; bit packing for widths around multiples of 32; ndarray (de)serialisation for 8 dtypes and 8 shapes; '
                 'labels; COO (triples, and at text level: written text character for character, loader on written and hand-mutated lines).  A case = one object through one route; non-trivial = the object is not empty')
@@ -920,6 +971,7 @@ def run(ctx):
     # r8f: quick-tier volumes trimmed by a quarter (79 s wall on the merged tree); every generator still runs, the volume lives in the thorough tier
     for _ in range(ctx.scale(450, 8000)):
         check_bqm(ctx, r, lines, expect, meta)
+    check_bqm_sizes(ctx)
     for _ in range(ctx.scale(450, 8000)):
         check_ss(ctx, r, lines, expect, meta)
     for _ in range(ctx.scale(600, 8000)):
